@@ -16,6 +16,7 @@
 The worktree lives under /tmp and is removed afterwards.  Nothing is ever applied to /repo itself by this tool.
 """
 import json
+import re
 import os
 import shutil
 import subprocess
@@ -54,6 +55,26 @@ class Worktree:
         shutil.rmtree(self.dir, ignore_errors=True)
 
 
+AGENT_WT = re.compile(r"/tmp/wt\d*/c\d\d(?![0-9A-Za-z_])")
+
+
+def repoint(text, src_wt, wt):
+    """demonstrations pin the worktree they were written in (sys.path / assertions): re-point them, and the helper
+    modules they import, at the scratch worktree of this verification.  Agents' worktrees were /tmp/wt<round>/c<NN>."""
+    if src_wt.startswith("/tmp/"):
+        text = text.replace(src_wt, wt)
+    return AGENT_WT.sub(wt, text)
+
+
+def origin_of(sid, src_wt):
+    """the worktree a delivery was written in; a re-verification from a scratch copy keeps the recorded one"""
+    for kind in ("seeded", "seeded_neutral"):
+        mp = os.path.join(VERIF, kind, sid, "meta.json")
+        if os.path.exists(mp) and re.match(r"/tmp/(rebase-|rv-)", src_wt):
+            return json.load(open(mp)).get("demo_worktree_path", src_wt)
+    return src_wt
+
+
 def verify(src, sid, patch="patch.diff", demo="demo.py"):
     patch_p, demo_p = os.path.join(src, patch), os.path.join(src, demo)
     res = {"id": sid, "steps": {}}
@@ -64,9 +85,10 @@ def verify(src, sid, patch="patch.diff", demo="demo.py"):
         text = open(demo_p).read()
         for name in os.listdir(src):
             if name.endswith(".py") and name not in (os.path.basename(demo_p),):
-                shutil.copy(os.path.join(src, name), os.path.join(wt, "_out", name))     # helper modules a demo imports
+                with open(os.path.join(src, name)) as fh, open(os.path.join(wt, "_out", name), "w") as out:
+                    out.write(repoint(fh.read(), src_wt, wt))                            # helper modules a demo imports
         with open(os.path.join(wt, "_out", "demo.py"), "w") as fh:
-            fh.write(text.replace(src_wt, wt) if src_wt.startswith("/tmp/") else text)
+            fh.write(repoint(text, src_wt, wt))
         rc, out = sh("PYTHONPATH=%s %s _out/demo.py" % (wt, PY), cwd=wt, timeout=600)
         res["steps"]["demo_without_change"] = {"exit": rc, "tail": out[-400:]}
         rc_a, out_a = sh("git apply %s" % patch_p, cwd=wt)
@@ -77,7 +99,7 @@ def verify(src, sid, patch="patch.diff", demo="demo.py"):
         res["steps"]["suite"] = {"tail": out_t.strip()}
         rc_d, out_d = sh("PYTHONPATH=%s %s _out/demo.py" % (wt, PY), cwd=wt, timeout=600)
         res["steps"]["demo_with_change"] = {"exit": rc_d, "tail": out_d[-600:]}
-    src_wt = os.path.dirname(os.path.abspath(src).rstrip("/"))
+    src_wt = origin_of(sid, os.path.dirname(os.path.abspath(src).rstrip("/")))
     ok = (res["steps"]["demo_without_change"]["exit"] == 0 and rc_a == 0 and rc_c == 0 and out_t.strip().startswith("79 passed") and rc_d != 0)
     res["confirmed"] = ok
     print(json.dumps(res, indent=1))
@@ -86,6 +108,9 @@ def verify(src, sid, patch="patch.diff", demo="demo.py"):
         os.makedirs(dst, exist_ok=True)
         shutil.copy(patch_p, os.path.join(dst, "patch.diff"))
         shutil.copy(demo_p, os.path.join(dst, "demo.py"))
+        for name in os.listdir(src):                                  # helper modules the demonstration imports
+            if name.endswith(".py") and name not in ("demo.py", "port.py") and os.path.abspath(src) != os.path.abspath(dst):
+                shutil.copy(os.path.join(src, name), os.path.join(dst, name))
         if os.path.exists(os.path.join(src, "notes.md")):
             shutil.copy(os.path.join(src, "notes.md"), os.path.join(dst, "notes.md"))
         meta_p = os.path.join(dst, "meta.json")
@@ -124,9 +149,10 @@ def rebase(ids, edit=None):
                 print("%-9s CONFLICT (needs a port.py): %s" % (sid, out.strip().splitlines()[-1] if out.strip() else ""))
                 continue
             rc, diff = sh("git diff", cwd=wt)
-        src_wt = meta.get("demo_worktree_path") or "/tmp/rebase/%s" % sid
+        # always a private scratch directory: the agent's own worktree (meta["demo_worktree_path"]) may still be live
+        src_wt = tempfile.mkdtemp(prefix="rebase-%s-" % sid)
         src = os.path.join(src_wt, "_out")
-        made = not os.path.exists(src_wt)
+        made = True
         os.makedirs(src, exist_ok=True)
         try:
             for name in os.listdir(d):
@@ -199,8 +225,7 @@ def verify_neutral(src, sid, patch, demo="demo.py"):
         for name in os.listdir(src):
             if name.endswith(".py"):
                 with open(os.path.join(src, name)) as fh, open(os.path.join(wt, "_out", name), "w") as out:
-                    t = fh.read()
-                    out.write(t.replace(src_wt, wt) if src_wt.startswith("/tmp/") else t)
+                    out.write(repoint(fh.read(), src_wt, wt))
         rc0, out0 = sh("PYTHONPATH=%s %s _out/%s" % (wt, PY, demo), cwd=wt, timeout=900)
         res["steps"]["demo_without_change"] = {"exit": rc0, "tail": out0[-300:]}
         rc_a, out_a = sh("git apply %s" % patch_p, cwd=wt)
@@ -219,11 +244,13 @@ def verify_neutral(src, sid, patch, demo="demo.py"):
         os.makedirs(dst, exist_ok=True)
         shutil.copy(patch_p, os.path.join(dst, "patch.diff"))
         shutil.copy(demo_p, os.path.join(dst, "demo.py"))
+        for name in os.listdir(src):                                  # helper modules the demonstration imports
+            if name.endswith(".py") and name not in ("demo.py", "port.py") and os.path.abspath(src) != os.path.abspath(dst):
+                shutil.copy(os.path.join(src, name), os.path.join(dst, name))
         if os.path.exists(os.path.join(src, "notes.md")):
             shutil.copy(os.path.join(src, "notes.md"), os.path.join(dst, "notes.md"))
-        import re
         m = re.search(r"c(\d\d)", sid)
-        meta = {"id": sid, "property": "C" + m.group(1), "kind": "behaviour-preserving refactoring (the property still holds)", "demo_worktree_path": src_wt, "confirmed": res["steps"],
+        meta = {"id": sid, "property": "C" + m.group(1), "kind": "behaviour-preserving refactoring (the property still holds)", "demo_worktree_path": origin_of(sid, src_wt), "confirmed": res["steps"],
                 "what_i_ran": ["demo on a clean worktree (exit 0)", "git apply", "compileall", "pinned suite: " + out_t.strip(), "demo with the change (exit 0)"]}
         json.dump(meta, open(os.path.join(dst, "meta.json"), "w"), indent=1)
     return ok
